@@ -24,10 +24,12 @@ def tasks(tier, seed):
 def extra(led, tier, seed):
     from contracts import gemini_large
     led.extend(gemini_large.obligations(seed, tier))
+    from contracts import lean_bounds
+    led.extend(lean_bounds.obligations(tier, file="Lemmas.lean", lemmas=["tangent_agree"], fn="specs.gemini (lemma L2)"))
     led.assume("A1", "A2", "A3", "A4", "A8",
                "A5: ot.emd2 contract: cost = <u,a> + <v,b> and the dual potentials are the derivative of the cost "
                "(envelope theorem on a non-degenerate optimal basis)",
-               "L2: agreement of d score/d P[i,k] - d score/d P[i,K-1] with grad[i,k] - grad[i,K-1] for all i,k is agreement along "
+               "L2 (linear-algebra half machine-checked: lean/Lemmas.lean tangent_agree, any K): agreement of d score/d P[i,k] - d score/d P[i,K-1] with grad[i,k] - grad[i,K-1] for all i,k is agreement along "
                "every simplex-tangent direction, hence (chain rule) through any softmax parameterisation",
                "differentiability regions: measure-zero boundaries between regions (TV ties, MMD zero distances) are excluded, as the property states")
     led.notes.append("level P@S: all real inputs at each listed shape, every differentiability region at that shape")
